@@ -244,6 +244,14 @@ def sec_normalize(rec, patches=None):
         rec.fact(f"normalize[len={len(bad)}]/rejected", all(isinstance(p.exc, ValueError) for p in paths), key="C05/normalize/rejects-wrong-length", detail={})
 
 
+def sec_constant(rec, patches=None):
+    """finite shift and score for constant / all-zero sub-volumes, all four models (run on the installed numerics: the
+    question is whether 0/0 can occur, which the real floating-point code answers directly)"""
+    from .c07 import sec_constant as _sc
+
+    _sc(rec)
+
+
 def sec_conformance(rec):
     """_upsampled_dft output shape; BlindNP leaves everything but argmax untouched"""
     from acryo.backend._pcc import _upsampled_dft
@@ -282,7 +290,7 @@ def sec_conformance(rec):
 
 
 def sections(tier):
-    S = [("conformance", "checks.c05", "sec_conformance", {}), ("normalize", "checks.c05", "sec_normalize", {}),
+    S = [("conformance", "checks.c05", "sec_conformance", {}), ("normalize", "checks.c05", "sec_normalize", {}), ("constant-subvolume", "checks.c05", "sec_constant", {}),
          ("upsample-int", "checks.c05", "sec_upsample", {"coarse": "int"}), ("upsample-ceil", "checks.c05", "sec_upsample", {"coarse": "ceil"})]
     boxes = [(4, 4, 4), (5, 6, 7)] if quick(tier) else [(4, 4, 4), (5, 6, 7), (8, 8, 8), (7, 4, 9)]
     oth = [(0.0, 1.3)] if quick(tier) else [(0.0, 1.3), (0.5, 0.0), (2.0, 0.7)]
